@@ -8,6 +8,7 @@ def run(ctx):
     serial.rule_R05_3(ctx)
     bytesacct.rule_writer(ctx, 'R05.4', [('output.c', 'reb_simulation_save_to_stream')], floor=6)
     bytesacct.rule_reader(ctx, 'R05.5')
+    serial.rule_size_switch(ctx, 'R05.8')
     serial.rule_tree_predicate(ctx, 'R05.7')   # the restored simulation rebuilds the tree iff a module needs it
     from . import c06
     c06.rule_reader(ctx)      # R06.3/4: the index of an archive is complete (satisfiable growth) and a snapshot is first + delta
